@@ -1,17 +1,24 @@
-"""C17 — prefix algebra: ONLY the boundary-safety clause is decided here.
+"""C17 — prefix algebra: boundary safety, the length of longest_common_prefix, and the pass-through of from_repr_len.
 
 NOT decided by this check (declared out of reach for static analysis of this kind, see DESIGN.md §6 C17 / §9): that contains is
-bitwise coverage (reflexive, antisymmetric, transitive), the longest_common_prefix equations, is_bit_set = i-th bit, eq compares
-network part and length, from_repr_len masks, and the agreement of the per-type overrides with the generic definitions.  These
+bitwise coverage (reflexive, antisymmetric, transitive), the representation part / symmetry / coverage of longest_common_prefix,
+is_bit_set = i-th bit, from_repr_len masks, and the agreement of the per-type overrides with the generic definitions.  These
 are identities over bit-vectors; a solver or enumeration would be a different technique.
 
+Every function of the prefix module (trait defaults, helpers, every shipped impl, in every feature configuration) and the
+branch-side function are INTERPRETED with all foreign arithmetic as uninterpreted functions and comparisons / min as ordering
+facts; every shift, built-in arithmetic operation and integer cast that is evaluated is traced, and the trace must cover the
+syntactic inventory of such sites (a site no path evaluates is reported as undecided).
 Decided — "none of these operations panics or overflows for any bit index 0..=255 and any length 0..=width":
-R17.1 every variable-amount shift of a representation (calls of Shr::shr / Shl::shl in prefix.rs and to_right) is either a
-      checked shift or lies in a branch that is only taken when the amount was compared unequal to the bit width
-      (count_zeros of zero / BITS / size_of);
-R17.2 every built-in arithmetic operation and every narrowing cast in prefix.rs and to_right is justified by its operand types
-      alone: `small literal + (u8 widened to u32/usize)`, `leading_zeros() as u8` (at most 128 for the shipped widths);
-      anything else is reported as unjustified arithmetic;
+R17.1 every variable-amount shift of a representation (Shr::shr / Shl::shl or a built-in shift) is evaluated only on paths that
+      have established that the amount differs from the bit width (a comparison with count_zeros(0) / BITS taken the right way)
+      — or is a checked shift;
+R17.2 every built-in arithmetic operation is justified by its operands alone: `small literal + (a u8 widened to a larger type)`
+      (also through a let-bound widened value), division / remainder by a non-zero literal, small literal * widened u8 in >= 32
+      bits; every narrowing cast is `leading_zeros() as u8` (at most 128 for the shipped widths); anything else is reported;
+R17.3 no shipped impl overrides Prefix::eq and the default eq consults only mask() and prefix_len(); the default zero() constructs
+      (zero representation, length 0); the default contains() answers true only on paths that established
+      len(self) <= len(other).
 R17.4 the LENGTH clause of longest_common_prefix ("has length min(len a, len b, number of equal leading bits)"): the generic
       definition and every per-type override are interpreted with all foreign arithmetic as uninterpreted functions and
       Ord::min / comparisons as ordering facts; on every returning path the length handed to the constructor must be provably
@@ -20,8 +27,6 @@ R17.4 the LENGTH clause of longest_common_prefix ("has length min(len a, len b, 
       NOT decided.)
 R17.5 from_repr_len(r, l) hands exactly `l` to the constructor (tuple type: stores l where prefix_len() reads it, r where
       repr() reads it).
-R17.3 no shipped impl overrides Prefix::eq; the default eq consults only mask() and prefix_len(); the default zero() is
-      from_repr_len(zero, 0); the default contains() compares the lengths before masking.
 """
 from ..facts import walk, find_all, callee_of
 from . import common as C
